@@ -662,6 +662,10 @@ func canonExpIn(vn, parent *VNode) string {
 		}
 		return cList(items)
 	case "explicit":
+		if vn.Kids[0].N.K == "raw" && (vn.Dropped || len(vn.Enc) < vn.Hdr) {
+			// requiredFieldMissing took the whole member away: nothing was encoded, the call is refused
+			return zeroCanon(vn.N, true)
+		}
 		if vn.Kids[0].N.K == "raw" {
 			// ExplicitOpaque: the wrapper is not opened, the RawValue is the wrapper itself - whatever it holds
 			return cRaw(vn.Class, vn.Tag, vn.Compound, vn.Enc[vn.Hdr:], vn.Enc)
